@@ -11,18 +11,18 @@ BASELINE = ("cd /repo && cargo nextest run --workspace --no-fail-fast --tool-con
 CHECKS = {
  "C01": ("exploration", "vcheck",
    "property-based testing (proptest, seed-sharded, shrinking) + exhaustive enumeration of cuts of short streams; reference-model oracle (serde_json on exactly one frame)",
-   "Generated frame sequences (valid, wrong-shape, malformed, padded; sizes dialled around the 256-byte growth steps) x chunkings x Pending schedules x 8 target types are received through a scripted transport and compared result-by-result with the reference decode of each frame; every single cut and pair of cuts of 100+ short streams is enumerated. Exploration: it finds counterexamples with high probability in the generated domain, it does not prove absence.",
+   "Generated frame sequences (valid, wrong-shape, malformed, padded; sizes dialled around the 256-byte growth steps) x chunkings x Pending schedules x 8 target types are received through a scripted transport and compared result-by-result with the reference decode of each frame; every single cut and pair of cuts of 100+ short streams is enumerated; a lane of large bursts mixes frames of 4..90 KiB (hundreds of growth steps) with small ones; thorough adds a libFuzzer campaign (frames_rx) with the same oracle. Exploration: it finds counterexamples with high probability in the generated domain, it does not prove absence.",
    "Trusted: serde_json::from_slice as the definition of 'decodes', the C04 rules for classifying replies, the simulated transport (never over-fills the offered buffer, EOF = 0-byte read).",
    "§3 C01"),
  "C04": ("exploration", "vcheck",
    "exhaustive enumeration of a reply-frame grammar x parameter types x error types; rule-based oracle from the statement (differential: direct serde decode of the caller's types vs zlink's receive path)",
-   "The complete cross product of a reply grammar (18 error spellings x 16 parameter shapes x continues x unknown member x every member order) is received as 9 (P,E) type combinations through receive_reply and call_method; a frame with an `error` member must never come back as success and must be classified exactly as the statement's rules say.",
-   "Trusted: 'E recognises the frame' := serde_json::from_slice::<E>(frame) succeeds; the grammar is finite and enumerated completely, frames outside it are not covered.",
+   "The complete cross product of a reply grammar (18 error spellings x 16 parameter shapes x continues x unknown member x every member order) is received as 9 (P,E) type combinations through receive_reply and call_method; a frame with an `error` member must never come back as success and must be classified exactly as the statement's rules say - under two definitions of 'the caller's error type recognises it' that both have to agree with zlink: the serde decode of the type, and a hand-written description of the declared variants (qualified name, field names and JSON types, unknown members ignored).",
+   "Trusted: the hand-written description of the three error enums and of org.varlink.service's errors used here (field-less variants with parameters that are neither absent, null nor an object are not judged); the grammar is finite and enumerated completely, frames outside it are not covered.",
    "§3 C04"),
 
  "C02": ("exploration", "vcheck",
-   "model-based property testing of operation histories (proptest, shrinking) with a model-directed size generator + exhaustive directed sweep of free-space values 0..=600; oracle = model of the wire built from serde_json encodings",
-   "Histories of enqueue_call/send_call/send_reply/send_error/flush with message sizes aimed (by a model of the 256-byte-step write buffer) at every free-space value 0..=600, the exact-fit branch and multi-step spans, with refused messages injected anywhere; the transport's record (one entry per write call) must equal the model's list of writes byte for byte.",
+   "model-based property testing of operation histories (proptest, shrinking; thorough: libFuzzer target tx_hist decoding the same raw operation specs) with a model-directed size generator + exhaustive directed sweep of free-space values 0..=600; oracle = model of the wire built from serde_json encodings",
+   "Histories of enqueue_call/send_call/send_reply/send_error/flush (and flushes that are started while the transport does not accept the write and abandoned after 1..3 polls) with message sizes aimed (by a model of the 256-byte-step write buffer) at every free-space value 0..=600, the exact-fit branch and multi-step spans, with refused messages injected anywhere; the transport's record (one entry per write call) must equal the model's list of writes byte for byte.",
    "Trusted: serde_json::to_vec as the reference encoding of a message (C03 checks the serializer itself); the capturing write half. The buffer model is used for aiming only.",
    "§3 C02"),
  "C03": ("exploration", "vcheck",
@@ -32,32 +32,32 @@ CHECKS = {
    "§3 C03"),
  "C07": ("exploration", "vcheck",
    "property-based testing over (frames, chunking, Pending schedule, cancellation set) with a hand-rolled executor that owns every poll; exhaustive subsets of suspension points for small streams and every-k-th-poll cancellation; oracle = no-cancellation reference model",
-   "The harness polls receive futures by hand and drops them at generated suspension points; the sequence of results must equal the reference decode of each frame. All subsets of <= 12 suspension points of 30 small streams and every k for byte-at-a-time delivery are enumerated.",
-   "Trusted: the simulated read half is itself cancel safe; reference as in C01. Only cancellation of the connection's own receive futures is covered here (the server's use of them is exercised by C08-C10).",
+   "The harness polls receive futures by hand and drops them at generated suspension points; the sequence of results must equal the reference decode of each frame. All subsets of <= 12 suspension points of 30 small streams and every k for byte-at-a-time delivery are enumerated. Two further lanes: (mixed forms) reply frames are received through a generated alternation of receive_reply and chain reply streams, each abandoned after 0..2 Pending polls, so the receive that follows an abandoned one is of another kind; (through the server) C08 scenarios with a poll of Server::run after every delivery, where the server itself drops all pending receives whenever another select branch wins, judged by the sequential model.",
+   "Trusted: the simulated read half is itself cancel safe; reference as in C01. Abandonment close to the buffer limit is exercised by C17 (lowered limit).",
    "§3 C07"),
  "C05": ("exploration", "vcheck",
    "exhaustive enumeration of call objects (10 method templates x 8 flag sets x explicit false x 0..2 unknown members x every member permutation) + proptest lanes for re-spelled texts (escapes in member names / values, white space), encodings through serde_json and through zlink's own serializer, derived error enums x member orders x {absent, null, {}}, Reply<T>, unit-output proxy methods; oracles: reference decode of the method type alone (differential), hand-written expected encodings, round trip, permutation invariance",
-   "Every permutation of every envelope in the grammar is decoded as Call<M> and compared with the decode of M from the same object without the flags (flags as written, hidden from M, other members passed through); encodings are compared with hand-written expectations via serde_json and via the send path; every value of 4 derived error enums and the standard service errors round-trips from every member order and, when field-less, from absent / null / {} parameters (also through receive_reply); unit-output proxy methods accept all three spellings.",
+   "Every permutation of every envelope in the grammar is decoded as Call<M> and compared with the decode of M from the same object without the flags (flags as written, hidden from M, other members passed through); encodings are compared with hand-written expectations via serde_json and via the send path; unknown members also get generated names (1..60 bytes of ASCII and 2-4-byte characters, raw or \\u-escaped); every value of 4 derived error enums and the standard service errors round-trips from every member order and, when field-less, from absent / null / {} parameters (also through receive_reply); unit-output proxy methods accept all three spellings.",
    "Trusted: serde's derive for user-defined method types as the reference for what the method type accepts; hand-written expected encodings next to each generated value. Error-enum shapes are a compiled-in set of 4 enums (generated corpora of derives are exercised by C12/C16).",
    "§3 C05"),
  "C08": ("exploration", "vcheck",
-   "model-based property testing of server schedules (proptest, shrinking): deterministic simulation of Server::run (scripted listener / sockets / service, hand-rolled executor, one Poll = run to quiescence) with generated connection scripts and global event orders; exhaustive enumeration of all interleavings of chunk deliveries for 2 connections x 4 chunks and 3 connections x 2 chunks; oracle = per-connection sequential reference model + service-log monitor",
+   "model-based property testing of server schedules (proptest, shrinking; thorough: libFuzzer target srv_sim decoding the same raw scenario values): deterministic simulation of Server::run (scripted listener / sockets / service, hand-rolled executor, one Poll = run to quiescence) with generated connection scripts and global event orders; exhaustive enumeration of all interleavings of chunk deliveries for 2 connections x 4 chunks and 3 connections x 2 chunks; oracle = per-connection sequential reference model + service-log monitor",
    "1..4 scripted clients with 0..5 calls each (plain / oneway / error-producing, pipelined or split at arbitrary bytes) are delivered in a generated global order; at every quiescent point each client's received frames must equal (at frame boundaries) or be a prefix of (mid-frame) the sequential model of its own calls, carry only its own tag, and the service log per connection must equal its calls exactly once in order; the server future must stay pending.",
    "Trusted: the simulated transports (a read returns Pending only when nothing was delivered), the scripted service as the definition of 'as decided by the service'. zlink serves a complete frame that is followed by a partial one only when the partial one completes; the statement does not speak about latency, so only a prefix is demanded at such points.",
    "§3 C08"),
  "C09": ("fault_enumeration", "vcheck",
    "fault injection into the deterministic server simulation: property-based generation of scenarios with faulty connections + exhaustive placement of every fault kind at every script position / every k for EOF, read error and write failure; relational oracle (same scenario re-run with the faulty connections absent, healthy outputs byte-identical at every observation) + reference model + liveness probe connection",
-   "Faults (7 kinds of bad frame at any position, truncated frame then EOF, EOF / transport read error anywhere, write failure from the k-th write) are placed in one or two of 1..4 connections under generated global event orders; every healthy connection must receive byte-identical frames at every quiescent point compared with a second run in which the faulty connections do not exist, must equal the sequential model, and a connection that arrives after all faults must be served; Server::run() must stay pending.",
+   "Faults (8 fixed kinds of bad frame - garbage, invalid UTF-8, wrong shape, unknown method, wrong types, missing parameter, ill-typed flag, a valid call followed by more bytes in the same frame - and generated undecodable frames of 0..900 bytes with multi-byte characters at every offset, at any position, truncated frame then EOF, EOF / transport read error anywhere, write failure from the k-th write) are placed in one or two of 1..4 connections under generated global event orders; every healthy connection must receive byte-identical frames at every quiescent point compared with a second run in which the faulty connections do not exist, must equal the sequential model, and a connection that arrives after all faults must be served; Server::run() must stay pending.",
    "Trusted: as C08. A peer that closes in the middle of a frame makes zlink drop the complete frames read together with the partial one; no listed property demands those replies, so a faulty connection is only checked for consistency (a prefix relation with its model, nothing foreign). The oversized-message fault is covered by C17, not here.",
    "§3 C09"),
  "C10": ("exploration", "vcheck",
    "model-based property testing of streaming through the server simulation (proptest, shrinking): Sub calls answered with a harness-controlled stream, Push/End events placed anywhere in the global order, pipelined calls behind the Sub, write failures; exhaustive interleavings of one connection's stream events with another connection's deliveries x write failure at every k; oracle = sequential model extended with streams",
-   "At every quiescent point each client has received, for its calls in order, the reply or - for a streaming call - every item pushed so far in push order with exactly the pushed continues flag, nothing of the calls behind an open stream, and after the stream's end the pipelined calls in order; the other clients equal their own model while a stream is open; after a write failure at any item only that connection stops.",
+   "Streaming calls may also be flagged oneway (the service still answers with a stream, which must be discarded: nothing is sent and the connection keeps taking calls). At every quiescent point each client has received, for its calls in order, the reply or - for a streaming call - every item pushed so far in push order with exactly the pushed continues flag, nothing of the calls behind an open stream, and after the stream's end the pipelined calls in order; the other clients equal their own model while a stream is open; after a write failure at any item only that connection stops.",
    "Trusted: as C08; the stream is a harness-controlled queue (item exists from its Push step on).",
    "§3 C10"),
  "C11": ("exploration", "vcheck",
    "property-based testing of chains / streaming calls whose items are held while later ones are obtained (proptest, shrinking) + directed sweep of every batch length 200..=1100 bytes; oracle = content snapshot + mutual address consistency of the held slices, run under a harness allocator that poisons and quarantines freed buffer-sized blocks and always moves on realloc; known-finding lane with a fixed witness",
-   "2..6 replies with borrowed string fields (success and error parameters, lengths dialled around the 256-byte steps) are received through Connection::chain_call / a `more` call; every yielded &str is kept and re-read after each later item: its bytes must equal the snapshot and all held slices must lie in one buffer at the offsets of their frames. Judged for class A (the whole batch was read before the first item was yielded); class B is the known finding replystream-item-across-read (witness replayed on every run, class B cases excluded by construction and counted).",
+   "2..6 replies with borrowed string fields (success and error parameters, lengths dialled around the 256-byte steps) are received through Connection::chain_call / a `more` call; every yielded &str is kept and re-read after each later item: its bytes must equal the snapshot and all held slices must lie in one buffer at the offsets of their frames. One reply in ten is a top-level failure of the exchange (service-error reply, undecodable frame, peer close): the stream must report it and end with the held items intact. The class is a function of the input alone: class B = a transport read ends exactly at the end of a non-final reply (a chunk ends there or the reply ends at a multiple of 256) - the known finding replystream-item-across-read (witness replayed on every run, cases excluded by construction and counted); every other input is class A and is judged, whenever the implementation chooses to read.",
    "Trusted: native execution - stale memory is made observable by the poisoning / quarantining allocator and the address check rather than by a memory-model tool. Only values borrowed through the reply stream are covered: for the plain receive methods the borrow checker already forbids a second receive while a borrow lives.",
    "§3 C11"),
  "C12": ("exploration", "corpus12",
@@ -86,19 +86,19 @@ CHECKS = {
    "Trusted: the harness's own Rust-type -> Varlink-type table (written from the statement). External-crate impls (uuid, chrono, url, ...) are not in the cargo cache and not covered. Comments inside inline types are ignored in the round trip (not listed by the property).",
    "§3 C16"),
  "C06": ("exploration", "vcheck",
-   "model-based property testing of chains (proptest, shrinking): generated flag sequences + conforming server scripts + trailing frames + chunkings, stream polled by hand; exhaustive enumeration of all flag sequences up to length 4 x 3 script families x 3 trailing counts x 6 chunkings; oracle = owed-reply model + reference decode + transport poll counter",
-   "Chains of 1..6 calls over {plain, oneway, more} are sent through Connection::chain_call/append/send against a scripted transport that then stays silent; the single transport write must equal the calls' reference encodings, the stream must yield exactly the owed replies (as the reference classifies each frame) and then None without polling the transport, and a later receive_reply must still find every trailing frame.",
+   "model-based property testing of chains (proptest, shrinking; thorough: libFuzzer target chain_rx decoding the same raw values): generated flag sequences + conforming server scripts + trailing frames + chunkings, stream polled by hand; exhaustive enumeration of all flag sequences up to length 4 x 3 script families x 3 trailing counts x 6 chunkings; oracle = owed-reply model + reference decode + transport poll counter",
+   "Chains of 1..6 calls over {plain, oneway, more} (call sizes dialled so that the enqueued calls end before / at / after the 256-byte steps of the write buffer; success replies with or without a `parameters` member) are sent through Connection::chain_call/append/send against a scripted transport that then stays silent; the single transport write must equal the calls' reference encodings, the stream must yield exactly the owed replies (as the reference classifies each frame) and then None without polling the transport, and a later receive_reply must still find every trailing frame.",
    "Trusted: conforming server scripts only (non-conforming servers are outside the statement); reply classification reference as in C04; hand polling with a no-op waker (a Pending with an exhausted script is 'waits forever').",
    "§3 C06"),
  "C17": ("exploration", "vcheck",
    "exhaustive size sweep (every inbound frame size 1..=limit+512 x chunk sizes, outbound sizes around every 256-byte step and the limit from several fill positions) under a hook-lowered limit of 83*256 bytes + production-limit inbound cases (100 MiB -257/-256/-2/-1/+0/+1/+300, unterminated over/under); threshold oracle from the statement + byte-exact delivery",
-   "Every inbound frame size up to limit+512 is received under 4-6 chunk sizes (terminated, unterminated+EOF, unterminated+waiting, behind pipelined prefixes) and every relevant outbound size is sent from an empty queue and behind an enqueued message: below the limit => intact, above => BufferOverflow with nothing of the refused message written, the queued message and a later message intact; the receive buffer (inferred from the slices offered to the read half) never exceeds limit+256. The production build confirms the inbound thresholds at 100 MiB.",
+   "Every inbound frame size up to limit+512 is received under 4-6 chunk sizes (terminated, unterminated+EOF, unterminated+waiting, behind pipelined prefixes) and every relevant outbound size is sent from an empty queue and behind an enqueued message: below the limit => intact, above => BufferOverflow with nothing of the refused message written, the queued message and a later message intact; the receive buffer (inferred from the slices offered to the read half) never exceeds the limit and no transport write is longer than it; a refused send has written nothing at the moment of refusal, also when it is a send_* behind enqueued messages; frames within 700 bytes of the limit are also received with the pending receive abandoned once mid-frame. The production build confirms the inbound thresholds at 100 MiB.",
    "Trusted: the small-limit build differs from production only in the constant (cfg zlink_verif_small_buf; 83*256 so that doubling strategies do not land on it); size == limit is recorded but not judged; outbound near 100 MiB is unreachable (quadratic re-serialisation) and covered under the lowered limit only.",
    "§3 C17"),
  "C18": ("exploration", "vcheck",
-   "history monitor over the service order recorded in the deterministic server simulation: proptest-generated role assignments (flooder / single / idle / closer / streamer at any list position) and event orders + exhaustive enumeration of flooder x single-caller positions among 2..5 connections under 4 schedules; oracle = round-robin monitor (strict within a run with unchanged connection set; counting bound across transitions) + the C08 reply model",
+   "history monitor over the service order recorded in the deterministic server simulation: proptest-generated role assignments (flooder with none / all / alternating oneway calls, single caller whose calls arrive whole or in two pieces, idle, closer, streamer at any list position) and event orders + exhaustive enumeration of flooder x single-caller positions among 2..5 connections under 4 schedules; oracle = round-robin monitor (strict within a run with unchanged connection set; counting bound across transitions) + the C08 reply model",
    "Within one run of the server to quiescence, between two consecutive services of one connection every other connection that had a complete call waiting the whole time must have been served; across closures and streaming transitions the number of foreign calls served while an eligible call waits must not exceed connections x (transitions + 1).",
-   "Trusted: a call is 'waiting' from the delivery of its last byte (deliveries end at frame boundaries); a call queued behind its own connection's open stream counts as eligible only once the server has seen the stream end. Not claimed: that reply streams make progress while some client keeps calls buffered (the biased select polls streams last; see DESIGN.md §4 notes).",
+   "Trusted: a call is 'waiting' from the delivery of its last byte (deliveries end at frame boundaries or inside a connection's only outstanding call); a call queued behind its own connection's open stream counts as eligible only once the server has seen the stream end. Not claimed: that reply streams make progress while some client keeps calls buffered (the biased select polls streams last; see DESIGN.md §4 notes).",
    "§3 C18"),
  "C19": ("exploration", "vcheck",
    "generated end-to-end scenarios over real Unix sockets under tokio (current-thread, multi-thread) and smol: socketpairs and bound / inherited-descriptor listeners with 1..8 concurrent connections, message sizes 1 B..1 MiB in both directions at once with generated reader pacing; deterministic cancellation recipe (send polled by hand until Pending with the peer reading a generated number of bytes, dropped, second send); oracle = sent sequence == received sequence byte for byte (position-dependent pattern), distinct connection ids, peer byte stream == whole frames each once",
@@ -106,8 +106,8 @@ CHECKS = {
    "Trusted: the kernel and the two runtimes; each scenario runs under a deadline whose expiry is reported as inconclusive (exit 2). Violations are re-run 5 times on replay.",
    "§3 C19"),
  "C20": ("exploration", "vcheck",
-   "model-based property testing of operation lists (proptest, shrinking) over {set, set through a clone, subscribe, poll subscriber i, clone, drop original} + exhaustive enumeration of every list up to length 7 over {set, subscribe, poll 0, poll 1}, executed against both zlink_tokio::notified and zlink_smol::notified with hand polling; oracle = subscriber model (increasing subsequence of the values set after subscribing, up to date at every Pending, no end while a state exists, end after all states dropped) + one-shot cases",
-   "Every generated and enumerated interleaving of writers and (lagging) readers is run on both runtimes: each subscriber must see a strictly increasing subsequence of the values set after it subscribed, marked continues = true, be up to date whenever a poll returns Pending, never see the end while a state or clone exists and see it (with the latest value delivered) once all are dropped; set must never fail or panic; one-shot notification yields exactly one item marked continues = false, then the end (just the end if the notifier was dropped).",
+   "model-based property testing of operation lists (proptest, shrinking) over {set, set the value that is already current, set through a clone, subscribe, poll subscriber i, clone, drop original} + exhaustive enumeration of every list up to length 7 over {set, set-same, subscribe, poll 0, poll 1} (thorough: libFuzzer target notified, one byte per operation), executed against both zlink_tokio::notified and zlink_smol::notified with hand polling; oracle = subscriber model (increasing subsequence of the values set after subscribing, up to date at every Pending, no end while a state exists, end after all states dropped) + one-shot cases",
+   "Every generated and enumerated interleaving of writers and (lagging) readers is run on both runtimes: each subscriber must see a subsequence of the values set after it subscribed, marked continues = true, be up to date whenever a poll returns Pending (last value = last value set, and something received since the last time it was up to date if anything was set), never see the end while a state or clone exists and see it (with the latest value delivered) once all are dropped; set must never fail or panic; one-shot notification yields exactly one item marked continues = false, then the end (just the end if the notifier was dropped).",
    "Trusted: hand polling with a no-op waker - a Pending is read as 'queue empty' (true for both channel implementations); real wake-ups and multi-threaded use are outside this check.",
    "§3 C20"),
 }
